@@ -245,6 +245,9 @@ def gen_broker_case(rng, stream='valid', n_ops=None, exact=False, fee=None, npf=
     if rng.random() < 0.12:
         case = rc.recase(case, rc.mapping(rng))          # symbols with lower-case letters
         case['stream'] += ':mixed-case-symbols'
+    elif rng.random() < 0.06 and case['cfg']['base'] in ('USD', 'GBP', 'EUR'):
+        case = rc.recase(case, {assets[0]: case['cfg']['base']})       # a ticker that reads like the account's currency code
+        case['stream'] += ':currency-code-ticker'
     return case
 
 
@@ -586,6 +589,9 @@ def gen_portfolio_case(rng, stream='valid', n_ops=None, exact=False, real_qty=Fa
     if rng.random() < 0.12:
         case = rc.recase(case, rc.mapping(rng))
         case['stream'] += ':mixed-case-symbols'
+    elif rng.random() < 0.06:
+        case = rc.recase(case, {assets[0]: 'USD'})       # a ticker that reads like the portfolio's (default) currency code
+        case['stream'] += ':currency-code-ticker'
     return case
 
 
